@@ -84,10 +84,35 @@ def tVR (v : VCell) : Val → Prop
   | .int n => v = .opaque ("n" ++ toString n)
   | _ => False
 
+/-- immediate values, closed under heap pairs (a pair cell is its own `heap.get`; there are no vectors) -/
+abbrev tVRc (h : THeap) (S : Array Cell) (v : VCell) (w : Val) : Prop :=
+  ClosedVR tops (fun _ _ => none) (fun _ v w => tVR v w) h S v w
+
 def tD (final : List LambdaM) : RepData2 tops :=
-  { named := fun _ => False, slot := fun _ => 0, VR := fun _ _ v w => tVR v w, SRx := fun _ _ => True,
+  { named := fun _ => False, slot := fun _ => 0, VR := tVRc, SRx := fun _ _ => True,
+    vecElems := fun _ _ => none,
     lamSrcs := fun h l => (h.lams[l]?).map (·.srcs), LM := id, final := final,
     setG := fun _ => False }
+
+mutual
+/-- the representation does not look at the heap at all (`heap.get` is the identity here), and of the store
+    only at pair cells -/
+theorem tVRc_move {h h' : THeap} {S S' : Array Cell}
+    (keep : ∀ (l : Nat) (c : Cell), S[l]? = some c → (∀ v, c ≠ .var v) → S'[l]? = some c) :
+    ∀ {v w}, tVRc h S v w → tVRc h' S' v w
+  | _, _, .base hb => .base hb
+  | _, _, .pair hs hd h1 h2 =>
+    .pair (keep _ _ hs (by intro v e; cases e)) hd (tVRc_move keep h1) (tVRc_move keep h2)
+  | _, _, .vec hs hv hall => .vec (keep _ _ hs (by intro v e; cases e)) hv (tVRc_moveAll keep hall)
+theorem tVRc_moveAll {h h' : THeap} {S S' : Array Cell}
+    (keep : ∀ (l : Nat) (c : Cell), S[l]? = some c → (∀ v, c ≠ .var v) → S'[l]? = some c) :
+    ∀ {ps xs}, All2 (tVRc h S) ps xs → All2 (tVRc h' S') ps xs
+  | _, _, .nil => .nil
+  | _, _, .cons a t => .cons (tVRc_move keep a) (tVRc_moveAll keep t)
+end
+
+theorem tVRc_heap {h h' : THeap} {S : Array Cell} {v : VCell} {w : Val} (x : tVRc h S v w) : tVRc h' S v w :=
+  tVRc_move (fun _ _ hc _ => hc) x
 
 theorem tCloSlot_eq (h : THeap) (ep : Nat) (src : RSrc) : tCloSlot h ep src = cloSlot tops h ep src := by
   cases src <;> rfl
@@ -98,7 +123,10 @@ theorem ext_same (final : List LambdaM) (h h' : THeap) (S : Array Cell) (hl : h'
     (hp : ∀ e k a b, tEnvGet h e k = some (.lexEnvPtr a b) → tEnvGet h' e k = some (.lexEnvPtr a b))
     (hv : ∀ e k v, tEnvGet h e k = some v → isEnvPtr v = false → ∃ v', tEnvGet h' e k = some v' ∧ isEnvPtr v' = false) :
     Ext2 (tD final) h S h' S := by
-  refine ⟨StoreExt.refl _, fun _ _ x => x, fun l x => ?_, fun v l e x => ?_, hp, hv⟩
+  refine ⟨StoreExt.refl _, fun _ _ x => tVRc_heap x,
+    fun _ _ x => DatumAt.transport (D := (tD final).toRepData) (vecElems := (tD final).vecElems) (h := h) (h' := h')
+      (S := S) (S' := S) (fun _ _ y => tVRc_heap y) (fun _ _ _ y => y) (fun _ _ y => y) x,
+    fun l x => ?_, fun v l e x => ?_, hp, hv⟩
   · show (h'.lams[l]?).isSome = true ∧ (∀ o, (h'.lams[l]?).bind _ = (h.lams[l]?).bind _) ∧
       (h'.lams[l]?).map _ = (h.lams[l]?).map _ ∧ (h'.lams[l]?).map _ = (h.lams[l]?).map _
     rw [hl]
@@ -145,20 +173,43 @@ theorem laws (final : List LambdaM) : Laws2 (tD final) where
   truth := by
     intro h S v w hv
     show v = .bool false ↔ _
-    cases w <;> simp only [tD, tVR] at hv <;> first
-      | (subst hv; simp)
-      | cases hv
+    cases hv with
+    | base hb =>
+      cases w <;> simp only [tVR] at hb <;> first
+        | (subst hb; simp)
+        | cases hb
+    | pair hs hd _ _ =>
+      have : v = .pair _ _ := hd
+      subst this
+      exact ⟨(fun e => by cases e), (fun e => by cases e)⟩
+    | vec hs hv' _ => cases hv'
   ne_undefined := by
     intro h S v w hv
-    cases w <;> simp only [tD, tVR] at hv <;> first
-      | (subst hv; intro e; cases e)
-      | cases hv
+    cases hv with
+    | base hb =>
+      cases w <;> simp only [tVR] at hb <;> first
+        | (subst hb; intro e; cases e)
+        | cases hb
+    | pair hs hd _ _ =>
+      have : v = .pair _ _ := hd
+      subst this
+      intro e; cases e
+    | vec hs hv' _ => cases hv'
   not_envptr := by
     intro h S v w hv
-    cases w <;> simp only [tD, tVR] at hv <;> first
-      | (subst hv; rfl)
-      | cases hv
-  void := fun _ _ => rfl
+    cases hv with
+    | base hb =>
+      cases w <;> simp only [tVR] at hb <;> first
+        | (subst hb; rfl)
+        | cases hb
+    | pair hs hd _ _ =>
+      have : v = .pair _ _ := hd
+      subst this
+      rfl
+    | vec hs hv' _ => cases hv'
+  void := fun _ _ => .base rfl
+  vr_pair := fun _ _ _ _ _ _ _ _ hs hd h1 h2 => .pair hs hd h1 h2
+  vr_vec := fun _ _ _ _ _ _ hs hv hall => .vec hs hv hall
   clos_true := by
     intro h v l e hc
     show v ≠ _
@@ -170,7 +221,7 @@ theorem laws (final : List LambdaM) : Laws2 (tD final) where
   clos_not_envptr := by
     intro h v l e hc
     cases v <;> first | rfl | cases hc
-  vr_store := fun _ _ _ _ _ _ x => x
+  vr_store := fun _ _ _ _ _ hx x => tVRc_move hx.keep x
   srx_store := fun _ _ _ _ _ => trivial
   glob_get_put := by intro h S x v m _ hn; cases hn
   globPut_ext := by
@@ -297,6 +348,7 @@ theorem laws (final : List LambdaM) : Laws2 (tD final) where
           exact ⟨v, by rw [show tEnvGet h' e k = tEnvGet h e k from tEnvGet_push_ne h _ h.clos e k (tEnvGet_some_lt hx)]; exact hx, hv⟩
   call := by
     intro n W h σ vf p vs ws w σ' _ hvf
-    cases hvf
+    cases hvf with
+    | base hb => cases hb
 
 end Marwood.Lemmas.CompileCorrect2.Toy
